@@ -119,3 +119,20 @@ impl<T> CurrentTimerEntry<T> {
         }
     }
 }
+
+/// Verification hook: every scheduled entry (the current one included) as (deadline, id, value).
+#[cfg(btdht_verif)]
+impl<T: Clone> Timer<T> {
+    pub fn verif_entries(&self) -> Vec<(Instant, u64, T)> {
+        let mut out: Vec<(Instant, u64, T)> = self
+            .queue
+            .iter()
+            .map(|(k, v)| (k.deadline, k.id, v.clone()))
+            .collect();
+        if let Some(current) = &self.current {
+            out.push((current.sleep.deadline(), current.id, current.value.clone()));
+        }
+        out.sort_by_key(|(deadline, id, _)| (*deadline, *id));
+        out
+    }
+}
